@@ -116,6 +116,10 @@ def cases(kind, tier, seed):
                         pairs += [itertools.product(x, y) for x, y in ((std, noid), (noid, std), (noid, noid))]
                 for a, b in itertools.chain(*pairs):
                     yield dict(spec1=a, spec2=b, seed=seed, propagators=b in big or not q)
+                short, long_ = [s for s in std if U.spec_range(s) == 1][:2], [s for s in std if U.spec_range(s) == 2][:2]
+                for a, b in itertools.chain(itertools.product(short, long_), itertools.product(long_, short)):  # unknown / infinite range of an operand
+                    for m1, m2 in ((None, 'None'), ('None', None), ('None', 'None'), (None, 'inf'), ('inf', 'None')):
+                        yield dict(spec1=dict(a, **({'max_range': m1} if m1 else {})), spec2=dict(b, **({'max_range': m2} if m2 else {})), seed=seed)
             for L, reach in inf_cells(chain, tier, 'pair'):
                 fam = list(family(chain, L, seed, ci, pairs=False, bc='infinite', reach=reach))
                 std = [s for f, s in fam if f in ('single', 'single-nonhermitian', 'all-groups-complex')]
